@@ -610,13 +610,39 @@ class World:
         import fnmatch as _fnmatch
         import posixpath as _pp
 
-        def _expand(base, parts):
+        def _rec_dirs(d):
+            """d and every directory below it that `**` visits (hidden directories are not entered)."""
+            out = [d]
+            for n in fs.listdir(d or "."):
+                if n.startswith("."):
+                    continue
+                p = _pp.join(d, n) if d else n
+                if fs.isdir(p):
+                    out.extend(_rec_dirs(p))
+            return out
+
+        def _expand(base, parts, recursive=False):
             if not parts:
                 return [base]
             head, rest = parts[0], parts[1:]
             out = []
+            if head == "**" and recursive:
+                d0 = base or "."
+                if not fs.isdir(d0):
+                    return []
+                for d in _rec_dirs(base):
+                    if rest:
+                        out.extend(_expand(d, rest, recursive))
+                    else:
+                        # a trailing ** matches the directories themselves and every non-hidden entry below them
+                        out.append(d + "/" if d == base and base else d)
+                        for n in fs.listdir(d or "."):
+                            p = _pp.join(d, n) if d else n
+                            if not n.startswith(".") and not fs.isdir(p):
+                                out.append(p)
+                return out
             if head == "**":
-                raise Unsupported("recursive glob pattern")
+                head = "*"
             if _glob.has_magic(head):
                 d = base or "."
                 if not fs.isdir(d):
@@ -625,23 +651,23 @@ class World:
                     if n.startswith(".") and not head.startswith("."):
                         continue
                     if _fnmatch.fnmatchcase(n, head):
-                        out.extend(_expand(_pp.join(base, n) if base else n, rest))
+                        out.extend(_expand(_pp.join(base, n) if base else n, rest, recursive))
             else:
                 cand = _pp.join(base, head) if base else head
                 if fs.exists(cand) or (rest and fs.isdir(cand)):
-                    out.extend(_expand(cand, rest))
+                    out.extend(_expand(cand, rest, recursive))
             return out
 
         def glob_glob(pathname, *, recursive=False, root_dir=None, **kw):
-            if recursive or root_dir is not None:
-                raise Unsupported("glob(recursive/root_dir)")
+            if root_dir is not None or kw.get("include_hidden"):
+                raise Unsupported("glob(root_dir/include_hidden)")
             pathname = _os.fspath(pathname)
             parts = pathname.split("/")
             base = ""
             if pathname.startswith("/"):
                 base, parts = "/", parts[1:]
             parts = [x for x in parts if x != ""] if not pathname.endswith("/") else [x for x in parts if x != ""]
-            return _expand(base, parts)
+            return _expand(base, parts, recursive)
 
         m["glob"] = types.SimpleNamespace(glob=glob_glob, iglob=lambda *a, **k: iter(glob_glob(*a, **k)), escape=_glob.escape,
                                           has_magic=_glob.has_magic)
